@@ -37,18 +37,44 @@ struct Table {
     name: &'static str,
     nkeys: usize,
     chords: &'static [u8],
+    /// the timeout of every chord; for mixed tables the largest one
     t: u32,
+    /// per-chord timeouts (defchordsv2 only); empty = every chord has timeout `t`
+    ts: &'static [u32],
+    /// inter-press gaps of the scenarios; empty = {0,1,t-1,t,t+1}
+    gaps: &'static [u32],
+}
+
+impl Table {
+    fn mixed(&self) -> bool {
+        !self.ts.is_empty()
+    }
+    fn timeout(&self, ci: usize) -> u32 {
+        self.ts.get(ci).copied().unwrap_or(self.t)
+    }
+    fn gap_set(&self) -> Vec<u32> {
+        if self.gaps.is_empty() {
+            vec![0, 1, self.t - 1, self.t, self.t + 1]
+        } else {
+            self.gaps.to_vec()
+        }
+    }
 }
 
 const TABLES: &[Table] = &[
-    Table { name: "pair", nkeys: 2, chords: &[0b00011], t: 12 },
-    Table { name: "sub+super", nkeys: 3, chords: &[0b00011, 0b00111], t: 12 },
-    Table { name: "overlap", nkeys: 3, chords: &[0b00011, 0b00110], t: 25 },
-    Table { name: "triple", nkeys: 3, chords: &[0b00111], t: 12 },
-    Table { name: "two-triples", nkeys: 4, chords: &[0b00111, 0b01011], t: 12 },
-    Table { name: "pairs+quad", nkeys: 4, chords: &[0b00011, 0b01100, 0b01111], t: 25 },
-    Table { name: "chain", nkeys: 4, chords: &[0b00011, 0b00111, 0b01111], t: 12 },
-    Table { name: "five", nkeys: 5, chords: &[0b11111, 0b00011, 0b11000, 0b01110], t: 12 },
+    Table { name: "pair", nkeys: 2, chords: &[0b00011], t: 12, ts: &[], gaps: &[] },
+    Table { name: "sub+super", nkeys: 3, chords: &[0b00011, 0b00111], t: 12, ts: &[], gaps: &[] },
+    Table { name: "overlap", nkeys: 3, chords: &[0b00011, 0b00110], t: 25, ts: &[], gaps: &[] },
+    Table { name: "triple", nkeys: 3, chords: &[0b00111], t: 12, ts: &[], gaps: &[] },
+    Table { name: "two-triples", nkeys: 4, chords: &[0b00111, 0b01011], t: 12, ts: &[], gaps: &[] },
+    Table { name: "pairs+quad", nkeys: 4, chords: &[0b00011, 0b01100, 0b01111], t: 25, ts: &[], gaps: &[] },
+    Table { name: "chain", nkeys: 4, chords: &[0b00011, 0b00111, 0b01111], t: 12, ts: &[], gaps: &[] },
+    Table { name: "five", nkeys: 5, chords: &[0b11111, 0b00011, 0b11000, 0b01110], t: 12, ts: &[], gaps: &[] },
+    // defchordsv2 only: chords with different timeouts. Chords that are comparable by inclusion share
+    // a timeout; an unrelated chord on the same first key has a much shorter (or longer) one.
+    Table { name: "mixed:ab,abc|ad-short", nkeys: 4, chords: &[0b00011, 0b00111, 0b01001], t: 25, ts: &[25, 25, 8], gaps: &[0, 1, 7, 9, 23] },
+    Table { name: "mixed:ac,acd|ab-short", nkeys: 4, chords: &[0b00101, 0b01101, 0b00011], t: 25, ts: &[25, 25, 8], gaps: &[0, 1, 7, 9, 23] },
+    Table { name: "mixed:ab|cd-long|ce-short", nkeys: 5, chords: &[0b00011, 0b01100, 0b10100], t: 30, ts: &[12, 30, 6], gaps: &[0, 1, 5, 7, 13] },
 ];
 
 #[derive(Clone, Debug)]
@@ -69,6 +95,12 @@ const COUNTERS: [&str; 4] = ["p", "q", "r", "s"];
 fn configs() -> Vec<Conf> {
     let mut v = vec![];
     for table in 0..TABLES.len() {
+        if TABLES[table].mixed() {
+            for release in 0..2 {
+                v.push(Conf { v2: true, table, release, on_l2: false, counting: false });
+            }
+            continue;
+        }
         v.push(Conf { v2: false, table, release: 0, on_l2: false, counting: false });
         for release in 0..2 {
             for on_l2 in [false, true] {
@@ -131,7 +163,7 @@ impl Conf {
                     "  ({}) {} {} {} ({})\n",
                     keylist(ci, *m),
                     action(ci),
-                    tb.t,
+                    tb.timeout(ci),
                     if self.release == 0 { "all-released" } else { "first-release" },
                     if ci % 2 == 0 { "l2" } else { "" }
                 ));
@@ -202,15 +234,17 @@ fn nth_perm(items: &[usize], mut idx: u64) -> Vec<usize> {
 }
 
 const N_HOLD: u64 = 2;
-const N_RELGAP: u64 = 2;
+const N_RELGAP: u64 = 3;
 
 fn scen_space(n: usize) -> u64 {
     factorial(n) * 5u64.pow(n as u32 - 1) * factorial(n) * N_HOLD * N_RELGAP
 }
 
-fn make_scen(keys: &[usize], t: u32, mut idx: u64) -> Scen {
+fn make_scen(keys: &[usize], tb: &Table, mut idx: u64) -> Scen {
     let n = keys.len();
-    let gaps = [0u32, 1, t - 1, t, t + 1];
+    let t = tb.t;
+    let gaps = tb.gap_set();
+    debug_assert!(gaps.len() == 5);
     let pp = idx % factorial(n);
     idx /= factorial(n);
     let mut g = vec![];
@@ -222,7 +256,7 @@ fn make_scen(keys: &[usize], t: u32, mut idx: u64) -> Scen {
     idx /= factorial(n);
     let hold = [1u32, t + 3][(idx % N_HOLD) as usize];
     idx /= N_HOLD;
-    let relgap = [0u32, 2][(idx % N_RELGAP) as usize];
+    let relgap = [0u32, 2, 9][(idx % N_RELGAP) as usize];
     let porder = nth_perm(keys, pp);
     let rorder = nth_perm(keys, rp);
     Scen {
@@ -411,7 +445,18 @@ fn twice_class(c: &Conf, acct: &Acct, ins: &[InEv], ci: usize) -> &'static str {
 }
 
 /// The accounting oracle. Returns Err((class, description)) at the first inconsistency.
+/// When a key of a fired chord has several unaccounted presses (tapped, then pressed again for the
+/// chord), the OS stream does not say which press the chord consumed: the earliest is tried first,
+/// then the latest one that had arrived when the chord fired; only if neither reading is consistent
+/// is the (first) inconsistency reported.
 fn accounting(c: &Conf, ins: &[InEv], obs: &[Obs]) -> Result<Acct, (&'static str, String)> {
+    match accounting_with(c, ins, obs, false) {
+        Ok(a) => Ok(a),
+        Err(e) => accounting_with(c, ins, obs, true).map_err(|_| e),
+    }
+}
+
+fn accounting_with(c: &Conf, ins: &[InEv], obs: &[Obs], latest: bool) -> Result<Acct, (&'static str, String)> {
     let tb = c.tb();
     let mut acct = Acct::default();
     let mut unacc: Vec<VecDeque<(usize, u64)>> = vec![VecDeque::new(); 6];
@@ -480,7 +525,8 @@ fn accounting(c: &Conf, ins: &[InEv], obs: &[Obs]) -> Result<Acct, (&'static str
             }
             let mut arr = vec![];
             for k in mask_keys(*m) {
-                match unacc[k].pop_front() {
+                let taken = if latest && unacc[k].len() > 1 { unacc[k].pop_back() } else { unacc[k].pop_front() };
+                match taken {
                     Some((_, a)) => arr.push((k, a)),
                     None => {
                         let cname = mask_keys(*m).iter().map(|k| KEYS[*k]).collect::<Vec<_>>().join(" ");
@@ -659,9 +705,12 @@ fn judge_scen(c: &Conf, s: &Scen, obs: &[Obs], settled: bool) -> Verdict {
         rel_at[*k] = t;
     }
     let span = last_press - first_press;
-    let in_window = if c.v2 { span <= tb.t as u64 } else { span < tb.t as u64 };
     let smask = s.presses.iter().fold(0u8, |a, (k, _)| a | 1 << k);
     let exact = tb.chords.iter().position(|m| *m == smask);
+    if tb.mixed() {
+        return judge_mixed(c, s, obs, settled, &ins, &rel_at, exact, v);
+    }
+    let in_window = if c.v2 { span <= tb.t as u64 } else { span < tb.t as u64 };
     // v2 at a span of exactly T: the tree completes the chord unless another press arrived exactly
     // one tick before the deadline (then the deadline is evaluated one tick earlier). The guide does
     // not decide that tick, so these scenarios are only judged by the other rules.
@@ -699,7 +748,7 @@ fn judge_scen(c: &Conf, s: &Scen, obs: &[Obs], settled: bool) -> Verdict {
         // processed has its window measured from when that press is processed (bounded lag)
         let from_idle = arr.iter().map(|x| x.1).min() == Some(first_press);
         let lag = if from_idle { 0 } else { R_DELAY as u64 + 2 * s.presses.len() as u64 };
-        let ok = if c.v2 { *sp <= tb.t as u64 + lag } else { *sp < tb.t as u64 + lag };
+        let ok = if c.v2 { *sp <= tb.timeout(*ci) as u64 + lag } else { *sp < tb.t as u64 + lag };
         if !ok {
             v.sig = Some((format!("C09:{ver}:fired-outside-window"), format!("{} fired although its participants' presses span {} ticks (timeout {})", unit_name(10 + *ci as u8, tb), sp, tb.t)));
             return v;
@@ -765,6 +814,100 @@ fn judge_scen(c: &Conf, s: &Scen, obs: &[Obs], settled: bool) -> Verdict {
                 format!("C09:v1:decomposition"),
                 format!("expected [{}], observed [{}]", v.expected, acct.units.iter().map(|u| unit_name(*u, tb)).collect::<Vec<_>>().join(", ")),
             ));
+            return v;
+        }
+    }
+    v
+}
+
+/// Tables whose chords have different timeouts (defchordsv2). The guide: "The time begins when the
+/// first participant is pressed"; kanata keeps the keys pending only as long as the shortest timeout
+/// among the chords that are still possible. Judged here:
+///  * accounting, as everywhere;
+///  * a chord never fires with a span above its own timeout;
+///  * must-fire: exactly the keys of a defined chord C pressed from idle, every press arriving before
+///    the shortest timeout among the chords that were still possible *before that press* (chords
+///    containing every key pressed so far) — then C and nothing else fires. Chords that earlier
+///    presses have ruled out must not shorten the wait;
+///  * the release rule.
+/// Scenarios in which a still-possible chord with a shorter timeout expires first are judged by
+/// accounting only (the guide does not say whether the keys are then still pending).
+#[allow(clippy::too_many_arguments)]
+fn judge_mixed(c: &Conf, s: &Scen, obs: &[Obs], settled: bool, ins: &[InEv], rel_at: &[u64; 5], exact: Option<usize>, mut v: Verdict) -> Verdict {
+    let tb = c.tb();
+    v.class = "mixed-other";
+    if !settled {
+        v.sig = Some(("C09:v2:stuck".into(), "kanata did not return to idle with every key up".into()));
+        return v;
+    }
+    let acct = match accounting(c, ins, obs) {
+        Ok(a) => a,
+        Err((k, what)) => {
+            v.sig = Some((format!("C09:v2:{k}"), what));
+            return v;
+        }
+    };
+    v.units = acct.units.clone();
+    let first_press = ins.iter().filter(|e| e.press).map(|e| e.at).min().unwrap_or(0);
+    for (ci, _, sp, arr) in &acct.fired {
+        let from_idle = arr.iter().map(|x| x.1).min() == Some(first_press);
+        let lag = if from_idle { 0 } else { R_DELAY as u64 + 2 * s.presses.len() as u64 };
+        if *sp > tb.timeout(*ci) as u64 + lag {
+            v.sig = Some(("C09:v2:fired-outside-window".into(), format!("{} fired although its participants' presses span {} ticks (its timeout is {})", unit_name(10 + *ci as u8, tb), sp, tb.timeout(*ci))));
+            return v;
+        }
+    }
+    if let Some(ci) = exact {
+        // is every press early enough for every chord that was still possible before it?
+        let presses: Vec<&InEv> = ins.iter().filter(|e| e.press).collect();
+        let mut so_far = 0u8;
+        let mut determined = true;
+        let mut ruled_out_shorter = false;
+        for (i, p) in presses.iter().enumerate() {
+            if i > 0 {
+                let possible: Vec<usize> = (0..tb.chords.len()).filter(|x| tb.chords[*x] & so_far == so_far).collect();
+                let min_t = possible.iter().map(|x| tb.timeout(*x)).min().unwrap_or(0) as u64;
+                // one tick of margin: the tick in which a timeout expires is not decided by the guide
+                if p.at - first_press + 1 >= min_t {
+                    determined = false;
+                }
+                if (0..tb.chords.len()).any(|x| !possible.contains(&x) && (tb.timeout(x) as u64) < p.at - first_press + 2) {
+                    ruled_out_shorter = true;
+                }
+            }
+            so_far |= 1 << p.key;
+        }
+        if determined {
+            v.class = if ruled_out_shorter { "mixed-positive-after-shorter-chord-ruled-out" } else { "mixed-positive" };
+            v.expected = unit_name(10 + ci as u8, tb);
+            if acct.units != vec![10 + ci as u8] {
+                v.sig = Some((
+                    "C09:v2:mixed-timeouts:positive:not-fired".into(),
+                    format!(
+                        "all keys of {} pressed before any still-possible chord's timeout, but the outcome was [{}]",
+                        v.expected,
+                        acct.units.iter().map(|u| unit_name(*u, tb)).collect::<Vec<_>>().join(", ")
+                    ),
+                ));
+                return v;
+            }
+        } else {
+            v.class = "mixed-undetermined";
+        }
+    }
+    for (ci, at, _, arr) in &acct.fired {
+        let rels: Vec<u64> = arr.iter().map(|(k, _)| rel_at[*k]).collect();
+        let t_rule = if c.first_release() { rels.iter().copied().min().unwrap_or(0) } else { rels.iter().copied().max().unwrap_or(0) };
+        let Some(up) = obs.iter().find(|o| !o.down && o.id == 10 + *ci as u8 && o.at >= *at).map(|o| o.at) else { continue };
+        let lo = (*at).max(t_rule + 1);
+        let slack = (R_DELAY * (acct.fired.len().max(1) as u32) + 2 * s.presses.len() as u32 + 2) as u64;
+        let hi = (*at).max(t_rule) + slack;
+        if up < lo {
+            v.sig = Some(("C09:v2:chord-released-early".into(), format!("{} released in tick {up}, before the release rule allows", unit_name(10 + *ci as u8, tb))));
+            return v;
+        }
+        if up > hi {
+            v.sig = Some(("C09:v2:chord-released-late".into(), format!("{} released in tick {up}, more than {slack} ticks after its release rule was met (tick {t_rule})", unit_name(10 + *ci as u8, tb))));
             return v;
         }
     }
@@ -1052,7 +1195,7 @@ impl Check for C09Check {
                 let local = i - off;
                 let sidx = if cnt < space { (local.wrapping_mul(STRIDE)) % space } else { local };
                 let keys = mask_keys(m);
-                let s = make_scen(&keys, tb.t, sidx);
+                let s = make_scen(&keys, tb, sidx);
                 let (obs, raw, settled) = run_scen(&mut sim, c, &s, &nm);
                 let mut v = judge_scen(c, &s, &obs, settled);
                 let mut raw = raw;
@@ -1110,11 +1253,11 @@ impl Check for C09Check {
         out
     }
     fn rule(&self) -> String {
-        "case = one configuration (8 chord tables over 2-5 participating keys: single pair, sub-chord + superset, overlapping pairs with an undefined superset, lone triple, two overlapping triples, pairs + quad, chain of 2/3/4, five-key chord with sub-chords; each as a defchords group with single-key chords and as defchordsv2 with all-released / first-release, on the base layer and on a layer where every other chord is disabled; participants written in non-sorted order) and a chunk of its scenario space: for every non-empty subset of the participating keys (subsets of up to 3 keys complete in both tiers; quick: 4-key subsets sampled, 40 000 of 288 000 scenarios each, with a fixed stride; thorough: 4-key subsets complete, 5-key subsets 300 000 of 36 M with a fixed stride; the sampling does not depend on the seed) every permutation of press order x every combination of inter-press gaps from {0,1,T-1,T,T+1} x every permutation of release order x hold {1,T+3} x inter-release gap {0,2}; plus random physically consistent histories mixing chord keys, a non-chord key and an unrelated key (accounting oracle only); plus one parser case (permuted duplicate key sets must be rejected). Non-trivial = scenario ran and was judged; distinct = (configuration, pressed subset, scenario class, sequence of fired units).".into()
+        "case = one configuration (8 chord tables over 2-5 participating keys: single pair, sub-chord + superset, overlapping pairs with an undefined superset, lone triple, two overlapping triples, pairs + quad, chain of 2/3/4, five-key chord with sub-chords; three defchordsv2-only tables whose chords have different timeouts, an unrelated chord on the same key having a much shorter or longer one; each as a defchords group with single-key chords and as defchordsv2 with all-released / first-release, on the base layer and on a layer where every other chord is disabled; participants written in non-sorted order) and a chunk of its scenario space: for every non-empty subset of the participating keys (subsets of up to 3 keys complete in both tiers; quick: 4-key subsets sampled, 40 000 of 288 000 scenarios each, with a fixed stride; thorough: 4-key subsets complete, 5-key subsets 300 000 of 36 M with a fixed stride; the sampling does not depend on the seed) every permutation of press order x every combination of inter-press gaps from {0,1,T-1,T,T+1} x every permutation of release order x hold {1,T+3} x inter-release gap {0,2,9}; plus random physically consistent histories mixing chord keys, a non-chord key and an unrelated key (accounting oracle only); plus one parser case (permuted duplicate key sets must be rejected). Non-trivial = scenario ran and was judged; distinct = (configuration, pressed subset, scenario class, sequence of fired units).".into()
     }
     fn assumptions(&self) -> Vec<String> {
         vec![
-            "all chords of a table share one timeout; scenarios start from idle with chord processing enabled (after the chords-v2-min-idle window), so no scenario straddles that window at its start; presses that fall into the window opened by an earlier non-chord activation of the same scenario are only judged by the accounting oracle".into(),
+            "all chords of a table share one timeout, except in the three mixed-timeout defchordsv2 tables, where a scenario is judged must-fire only if every press arrives before the shortest timeout among the chords still possible before it (otherwise accounting only); scenarios start from idle with chord processing enabled (after the chords-v2-min-idle window), so no scenario straddles that window at its start; presses that fall into the window opened by an earlier non-chord activation of the same scenario are only judged by the accounting oracle".into(),
             "window convention as measured (appendix A): v1 participants must arrive < T after the first, v2 <= T".into(),
             "release slack: rapid-event-delay per fired chord + 2 x number of keys + 2 ticks (+3 when the chord action also taps a counting virtual key) after the release rule is met".into(),
             "v1 tables define a single-key chord for every participating key, so a vanished key is always a swallowed key; the v1 release rule is only judged for undecomposed chords (the guide calls the other cases implementation-defined)".into(),
@@ -1127,6 +1270,8 @@ impl Check for C09Check {
         let _ = ctx;
         vec![
             ("v1_class_positive", 5_000),
+            ("v2_class_mixed-positive", 2_000),
+            ("v2_class_mixed-positive-after-shorter-chord-ruled-out", 300),
             ("v2_class_positive", 20_000),
             ("v1_class_too-slow", 1_000),
             ("v2_class_too-slow", 4_000),
